@@ -58,6 +58,11 @@ func (g *dgen) defaultFor(typ string, allowBad bool) any {
 	case "string":
 		return gen.Pick(r, []string{"", "dflt", "é"})
 	case "integer":
+		if r.IntN(4) == 0 {
+			// just outside the range of a narrow integer kind: a typed map element of that kind cannot hold the default
+			// (an error, nothing inserted), any wider holder receives exactly this number
+			return json.Number(gen.Pick(r, []string{"128", "300", "-129", "255", "256", "32768", "-32769", "65536", "65535", "-32768"} /* all below 2^24: a float32 holder keeps them exactly */))
+		}
 		return json.Number(gen.Pick(r, []string{"0", "1", "7", "-3"}))
 	case "number":
 		return json.Number(gen.Pick(r, []string{"0.5", "2", "1e2"}))
